@@ -935,3 +935,61 @@ Proof.
   - intros y' Hy'. apply in_map_iff in Hy' as [[x' y''] [Heq Hin']]. simpl in Heq. injection Heq as Hn ->.
     eapply Hfun; eauto.
 Qed.
+
+(* ------------------------------------------------------------------------------------------ *)
+(* file names and files side by side *)
+Lemma length_app (a b : string) : String.length (a ++ b) = String.length a + String.length b.
+Proof. induction a as [|c a IH]; simpl; [reflexivity|]. rewrite IH. reflexivity. Qed.
+
+Lemma app_inj_r (a b s : string) : a ++ s = b ++ s -> a = b.
+Proof.
+  revert b. induction a as [|c a IH]; intros b H.
+  - destruct b as [|d b]; [reflexivity|]. exfalso. apply (f_equal String.length) in H.
+    simpl in H. rewrite length_app in H. lia.
+  - destruct b as [|d b].
+    + exfalso. apply (f_equal String.length) in H. simpl in H. rewrite length_app in H. lia.
+    + simpl in H. injection H as -> H. f_equal. auto.
+Qed.
+
+(* two names denote the same file only if they are equal or differ by exactly the suffix *)
+Definition alias (f : namefn) (a b : string) : Prop :=
+  a = b \/ a = b ++ name_suffix f \/ b = a ++ name_suffix f.
+
+Lemma name_collision f a b : apply_name f a = apply_name f b -> alias f a b.
+Proof.
+  unfold alias. destruct f as [|suf]; simpl; [auto|].
+  destruct (ends_with suf a), (ends_with suf b); intro H; auto.
+  left. eapply app_inj_r; eauto.
+Qed.
+
+Lemma namefn_eqb_eq f g : namefn_eqb f g = true -> f = g.
+Proof. destruct f, g; simpl; intro H; try discriminate; [reflexivity|]. apply String.eqb_eq in H. congruence. Qed.
+
+Section FilesProofs.
+  Variable D : Type.
+
+  Lemma fs_saves_app f (fs : fsys D) l1 l2 : fs_saves D f fs (l1 ++ l2)%list = fs_saves D f (fs_saves D f fs l1) l2.
+  Proof. revert fs. induction l1 as [|[n d] r IH]; simpl; intro fs; [reflexivity|apply IH]. Qed.
+
+  Lemma fs_saves_other f (fs : fsys D) l k :
+    (forall n d, In (n, d) l -> apply_name f n <> k) -> fs_saves D f fs l k = fs k.
+  Proof.
+    revert fs. induction l as [|[n d] r IH]; simpl; intros fs H; [reflexivity|].
+    rewrite IH; [|intros; eapply H; eauto]. unfold fs_save.
+    destruct (String.eqb k (apply_name f n)) eqn:E; [|reflexivity].
+    apply String.eqb_eq in E. exfalso. eapply H; [left; reflexivity|]. auto.
+  Qed.
+
+  (* any number of models saved one after the other: loading a name gives back what was saved under it,
+     whatever was saved before and after, as long as no LATER save used an alias of that name *)
+  Theorem files_independent fsave fload (fs : fsys D) pre n d post :
+    namefn_eqb fsave fload = true ->
+    (forall n' d', In (n', d') post -> ~ alias fsave n' n) ->
+    fs_load D fload (fs_saves D fsave fs (pre ++ (n, d) :: post)%list) n = Some d.
+  Proof.
+    intros E H. apply namefn_eqb_eq in E. subst fload. unfold fs_load.
+    rewrite fs_saves_app. simpl. rewrite fs_saves_other.
+    - unfold fs_save. rewrite String.eqb_refl. reflexivity.
+    - intros n' d' Hin C. apply (H n' d' Hin). apply name_collision. exact C.
+  Qed.
+End FilesProofs.
